@@ -563,10 +563,10 @@ pub fn features(l: &str) -> BTreeSet<Feat> {
     feature_map(l).into_iter().flatten().collect()
 }
 
-/// The value with every featured character replaced by `~`, except those of `keep`.
-pub fn isolate(l: &str, keep: Option<Feat>) -> String {
+/// The value with every featured character replaced by `~`, except those of the features in `keep`.
+pub fn isolate(l: &str, keep: &[Feat]) -> String {
     let fm = feature_map(l);
-    l.chars().zip(fm).map(|(c, f)| if f.is_some() && f != keep { '~' } else { c }).collect()
+    l.chars().zip(fm).map(|(c, f)| if f.map_or(false, |f| !keep.contains(&f)) { '~' } else { c }).collect()
 }
 
 // ------------------------------------------------------------------------------------------
@@ -604,16 +604,30 @@ fn one(q: RtQuad) -> RtDataset {
 /// blamed on the combination (`with_subject_<kind>.literal_<feature>`).
 fn attribute_literal(acc: &mut Acc, fmt: Fmt, ctx: Option<(&RtTerm, &str, &Option<String>)>, l: &str, whole: &Trip, whole_ds: &RtDataset) {
     let benign = |v: String| one(RtQuad { s: RtTerm::Iri(BENIGN_S.into()), p: BENIGN_P.into(), o: RtTerm::Lit(v), g: None });
-    let mut probes: Vec<(String, String)> = features(l).into_iter().map(|f| (f.name().to_string(), isolate(l, Some(f)))).collect();
-    probes.push(("other".to_string(), isolate(l, None)));
+    let feats: Vec<Feat> = features(l).into_iter().collect();
+    // rounds: every single feature; if none fails, the value without any feature; if that passes too,
+    // every pair of features
+    let mut rounds: Vec<Vec<(String, String)>> = vec![];
+    rounds.push(feats.iter().map(|f| (f.name().to_string(), isolate(l, &[*f]))).collect());
+    rounds.push(vec![("other".to_string(), isolate(l, &[]))]);
+    let mut pairs = vec![];
+    for (i, a) in feats.iter().enumerate() {
+        for b in feats.iter().skip(i + 1) {
+            pairs.push((format!("{}+{}", a.name(), b.name()), isolate(l, &[*a, *b])));
+        }
+    }
+    rounds.push(pairs);
     let mut any = false;
-    for (name, probe) in probes {
+    let probes: Vec<(usize, String, String)> = rounds.into_iter().enumerate().flat_map(|(r, v)| v.into_iter().map(move |(n, p)| (r, n, p))).collect();
+    let mut cur_round = usize::MAX;
+    for (round, name, probe) in probes {
+        if any && round != cur_round {
+            break; // later rounds only matter while nothing simpler explains the failure
+        }
         if mistakable(&probe) {
             continue; // cannot happen (see `isolate`), but never leave the domain
         }
-        if name == "other" && any {
-            break; // the neutralised value is only of interest when no single feature explains the failure
-        }
+        cur_round = round;
         let ds = benign(probe.clone());
         let t = acc.trip(fmt, &ds);
         if !t.passed() {
